@@ -386,7 +386,12 @@ def part_g(desc) -> Acc:
                             if b == R.ESC and i + 1 < len(body):
                                 acc.hit("stuffed_0x%02x" % (body[i + 1] ^ 0x20))
                     if attempt < retries:
-                        await asyncio.sleep(3.3)  # no ACK: the host must repeat
+                        # no ACK: the host must repeat (after its adaptive timeout, at most 3.2 s);
+                        # wait for exactly the next write, whenever it comes
+                        for _w in range(80):
+                            await asyncio.sleep(0.05)
+                            if any(e[0] == "wr" for e in log[mark:]):
+                                break
                     else:
                         proto.data_received(R.encode_ack((host_tx + 1) % 8))
                 try:
